@@ -76,9 +76,10 @@ class Report:
     # ---- finishing -------------------------------------------------------------------------
     def finish(self, checker_cmd):
         known, fixed = load_known()
-        os.makedirs(os.path.join(VERIF, "evidence", "replay"), exist_ok=True)
+        EVD = os.environ.get("CKC_EVIDENCE_DIR") or os.path.join(VERIF, "evidence")
+        os.makedirs(os.path.join(EVD, "replay"), exist_ok=True)
         import glob
-        for old in glob.glob(os.path.join(VERIF, "evidence", "replay", "%s-*.json" % self.prop)):
+        for old in glob.glob(os.path.join(EVD, "replay", "%s-*.json" % self.prop)):
             try:
                 os.remove(old)
             except OSError:
@@ -93,7 +94,7 @@ class Report:
             else:
                 new.append((key, o))
         for i, (key, o) in enumerate(new[:25]):
-            rp = os.path.join(VERIF, "evidence", "replay", "%s-%d.json" % (self.prop, i))
+            rp = os.path.join(EVD, "replay", "%s-%d.json" % (self.prop, i))
             with open(rp, "w") as fh:
                 json.dump({"property": self.prop, "key": key, "rule": o[0], "instance": o[1], "detail": o[3], "where": o[4]}, fh, indent=1)
             print("VIOLATION property=%s replay=%s" % (self.prop, rp))
@@ -142,7 +143,7 @@ class Report:
             "wall_s": round(time.time() - self.t0, 3),
             "violations": len(new),
         }
-        with open(os.path.join(VERIF, "evidence", "%s.json" % self.prop), "w") as fh:
+        with open(os.path.join(EVD, "%s.json" % self.prop), "w") as fh:
             json.dump(ev, fh, indent=1, default=str)
         status = "HELD" if not new else "VIOLATED"
         print("%s %s tier=%s obligations=%d discharged=%d evaluations=%d wall=%.1fs" % (
